@@ -41,3 +41,21 @@ extern "C" void h_sum8() { DATA;
     VP_ASSERT(CalcCheckSum8(d, n) == ref_sum8(d, n), "8-bit checksum equals the one's-complement sum definition"); VP_REACH("sum8"); }
 extern "C" void h_sum16() { DATA;
     VP_ASSERT(CalcCheckSum16(d, n) == ref_sum16(d, n), "16-bit checksum equals RFC 1071"); VP_REACH("sum16"); }
+
+// long inputs: the 16-bit accumulator of the 8-bit checksum can only matter once the byte sum passes 0xffff (>= 258 bytes). A fully symbolic
+// 300-byte input does not finish in the SAT back ends (>15 min), so the first NFIX bytes are fixed to 0xff (the fastest way to reach the carry)
+// and the tail of NB bytes and the length are symbolic.
+#ifndef NFIX
+#define NFIX 290
+#endif
+#define R10(x) x, x, x, x, x, x, x, x, x, x
+#define R50(x) R10(x), R10(x), R10(x), R10(x), R10(x)
+#define R290(x) R50(x), R50(x), R50(x), R50(x), R50(x), R10(x), R10(x), R10(x), R10(x)
+static unsigned char g_long[290 + 16] = { R290(0xff) };          // (a statically initialised array keeps the prefix concrete for the bounded model checker)
+extern "C" void h_sum8_long() {
+    unsigned char *d = g_long;
+    for (int i = 0; i < NB; i++) d[NFIX + i] = nondet_uchar();
+    size_t n = nondet_ulong(); VP_ASSUME(n <= NFIX + NB);
+    VP_ASSERT(CalcCheckSum8(d, n) == ref_sum8(d, n), "8-bit checksum equals the one's-complement sum definition on long inputs (byte sum beyond 16 bits)");
+    VP_REACH("sum8_long");
+}
